@@ -275,6 +275,19 @@ static void c05_nv_full(World *w, Buf *b) {
         battery(&wc, b, 0, d1);
     }
     tr("nvfull persisted=%d rc=%u batt_eq=%d transient_ok=%d", n, rc, rc ? !memcmp(d0, d1, 32) : -1, transient_ok);
+    if (rc != 0) {
+        /* NV is full, the orderly RAM is not: an ORDERLY index that the RAM could take but NV cannot is refused with nothing left
+           behind — not in the image, not in storage, not in the RAM */
+        { static const uint16_t FS[] = {1500, 700, 300, 100, 30, 1}; uint32_t fh = 0x01400060u;   /* what room is left goes to filler indices */
+          for (int q = 0; q < 6; q++) for (int rep = 0; rep < 12; rep++) { cmd_begin(b, ST_SESSIONS, CC_NV_DefineSpace); b_u32(b, RH_OWNER); auth_pw_s(b, w->ownerAuth); b_u16(b, 0); b_u16(b, 14); b_u32(b, fh++); b_u16(b, ALG_SHA256);
+              b_u32(b, (1u << 2) | (1u << 18) | (1u << 1) | (1u << 17) | (1u << 25)); b_u16(b, 0); b_u16(b, FS[q]); if (run(b).rc != 0) break; } }
+        Blob i0 = {0}, i1 = {0}; uint8_t e0[32], e1[32]; persist_getimg(&i0); battery(&wc, b, 0, e0); long sc = g_store_calls;
+        cmd_begin(b, ST_SESSIONS, CC_NV_DefineSpace); b_u32(b, RH_OWNER); auth_pw_s(b, w->ownerAuth); b_u16(b, 0); b_u16(b, 14); b_u32(b, 0x01400051u); b_u16(b, ALG_SHA256);
+        b_u32(b, (1u << 2) | (1u << 18) | (1u << 1) | (1u << 17) | (1u << 25) | (1u << 26)); b_u16(b, 0); b_u16(b, 100); Rsp dr = run(b); long stores = g_store_calls - sc;
+        persist_getimg(&i1); battery(&wc, b, 0, e1);
+        tr("nvfull2 rc=%u img_eq=%d stores=%ld batt_eq=%d", dr.rc, perm_equal_masked(i0.p, i0.n, i1.p, i1.n), stores, !memcmp(e0, e1, 32));
+        blob_clear(&i0); blob_clear(&i1);
+    }
     c02_world_free(&wc);
     w->ops = -1;   /* the persistent handles are not tracked: end this history */
 }
